@@ -50,12 +50,21 @@ pub fn c10(ctx: &Ctx) -> PropResult {
                 combos.push(c);
             }
         } else {
-            // each exemplar at each position at least once, then random tuples
+            // each exemplar at each position at least once (the others random), then random tuples
             for pos in 0..*arity {
                 for e in 0..ex.len() {
                     let mut c: Vec<usize> = (0..*arity).map(|_| rng.below(ex.len())).collect();
                     c[pos] = e;
                     combos.push(c);
+                }
+            }
+            // and each exemplar at each position with type-correct arguments elsewhere, so that the value
+            // reaches the code behind the other arguments' casts
+            for pos in 0..*arity {
+                for (_, e) in EXEMPLARS {
+                    let args: Vec<String> = (0..*arity).map(|i| if i == pos { e.to_string() } else { plausible_arg(module, name, i).to_string() }).collect();
+                    let show = if name == "RANDOM" { "DISPLAY(\"after\")" } else { "DISPLAY(r)" };
+                    cases.push(run_case(format!("{pre}lst <- [1, 2]\nmp <- MAP()\nDISPLAY(\"call\")\nr <- {name}({})\n{show}\nDISPLAY(lst)\n", args.join(", ")), &format!("{module}.{name}")));
                 }
             }
             while combos.len() < budget {
@@ -99,6 +108,12 @@ pub fn c10(ctx: &Ctx) -> PropResult {
             cases.push(run_case(format!("{}{}", exemplar_prelude(), f), "statement-form"));
         }
     }
+    // STYLE with every name of the live style table (scanned from style.rs), in three casings, and near-misses
+    for name in style_names() {
+        for n in [name.clone(), name.to_uppercase(), format!("{name} "), format!("{}x", name)] {
+            cases.push(run_case(format!("IMPORT MOD \"STYLE\"\nDISPLAY(STYLE(\"{n}\"))\nDISPLAY(\"text\")\nCLEAR_STYLE()\n"), "STYLE.names"));
+        }
+    }
     // limits of the procedure machinery: 254 .. 257 and 300 parameters / arguments, declared, called, mis-called
     for n in [0usize, 1, 254, 255, 256, 257, 300] {
         let params: Vec<String> = (0..n).map(|i| format!("p{i}")).collect();
@@ -129,6 +144,23 @@ pub fn c10(ctx: &Ctx) -> PropResult {
         exhaustive: false,
         notes: vec![],
     }
+}
+
+/// the names of the style table, read from the live source
+pub fn style_names() -> Vec<String> {
+    let text = std::fs::read_to_string("/repo/src/standard_library/style.rs").unwrap_or_default();
+    let mut out = vec![];
+    for line in text.lines() {
+        let t = line.trim();
+        if let Some(rest) = t.strip_prefix('"') {
+            if let Some((name, after)) = rest.split_once('"') {
+                if after.trim_start().starts_with("=>") {
+                    out.push(name.to_string());
+                }
+            }
+        }
+    }
+    out
 }
 
 /// every list length 0..4 x every iteration k x one mutation of the traversed list at iteration k x how the
